@@ -1,9 +1,14 @@
 package el
 
 import (
+	"fmt"
 	"regexp"
 	"strings"
 )
+
+// maxReplacements bounds the substitutions of one ReplaceAllContent call, so that
+// content that keeps reproducing itself (a circular reference) ends in an error.
+const maxReplacements = 1000
 
 type Helper interface {
 	MatchString(s string) bool
@@ -37,10 +42,13 @@ func (e *elHelper) content(elr string) string {
 
 func (e *elHelper) ReplaceAllContent(s string, f func(content string) (string, error)) (string, error) {
 	var result = s
-	for true {
+	for n := 0; ; n++ {
 		elr := e.FindString(result)
 		if elr == "" {
 			break
+		}
+		if n >= maxReplacements {
+			return "", fmt.Errorf("'%s' is still not resolved after %d replacements: circular reference?", s, maxReplacements)
 		}
 		r, err := f(e.content(elr))
 		if err != nil {
